@@ -2,6 +2,8 @@ import Hive.Proofs.Deser
 import Hive.Proofs.JsonDec
 import Hive.Proofs.StreamCost
 import Hive.Gen.C02_Skel
+import Hive.Gen.C02_Facts
+import Hive.Spec.DeserFacts
 /-!
 # C02 — decoders are total and resource-bounded on arbitrary input
 
@@ -383,6 +385,82 @@ theorem C02_skeleton_validatorsRegistry_Has : skel_validatorsRegistry_Has = ["ca
 theorem C02_skeleton_validatorsRegistry_RegisterValidator :
     lockOps skel_validatorsRegistry_RegisterValidator = ["lock r.registryMutex", "defer unlock r.registryMutex"] := by
   decide
+
+/-! ## regenerated facts: constants and function bodies of the working tree
+
+`Hive/Gen/C02_Facts.lean` is rewritten from the Go source on every run (harness/c02/facts: go/types evaluates the
+constants, go/ast normalises the bodies).  The constants are tied to the model's own numbers; the bodies must equal
+the copies the models were transcribed from (`Hive/Spec/DeserFacts.lean`). -/
+section Facts
+open Hive.Gen.C02Facts
+
+/-- the numbers the models use are the numbers of the code -/
+theorem C02_facts_constants :
+    const_maxReadBytesPreallocation = Stream.prealloc ∧
+    const_MaxNanoTimestampInt64Seconds = Deser.maxNanoSeconds ∧
+    [const_OneByte, const_UInt16ByteSize, const_UInt32ByteSize, const_UInt64ByteSize]
+      = [LP.u8.width, LP.u16.width, LP.u32.width, LP.u64.width] ∧
+    const_UInt256ByteSize = Deser.Prim.u256.minSize ∧ const_UInt64ByteSize = Deser.Prim.time.minSize ∧
+    const_PayloadLengthByteSize = Deser.Prim.plen.minSize ∧ const_PayloadLengthByteSize = (Deser.Prim.payload .nil).minSize ∧
+    const_MinPayloadByteSize = 5 ∧
+    const_SmallTypeDenotationByteSize = (Deser.Prim.tprefix .byte 0).minSize ∧
+    const_TypeDenotationByteSize = (Deser.Prim.tprefix .u32 0).minSize ∧
+    [const_ArrayValidationModeNoDuplicates, const_ArrayValidationModeLexicalOrdering,
+      const_ArrayValidationModeAtMostOneOfEachTypeByte, const_ArrayValidationModeAtMostOneOfEachTypeUint32] = [1, 2, 4, 8] ∧
+    [const_DeSeriModeNoValidation, const_DeSeriModePerformValidation] = [0, 1] := by
+  decide
+
+/-- `stream.Read` / `stream.Write` are instantiated for these types only (the widths 1, 2, 4, 8 and the three
+array lengths of the model's `num` / `arr`) -/
+theorem C02_facts_type_allowedGenericTypes : type_allowedGenericTypes =
+    "interface{~bool|~uint8|~uint16|~uint32|~uint64|~int8|~int16|~int32|~int64|~[32]byte|~[36]byte|~[38]byte}" := by
+  decide
+
+theorem C02_facts_body_ReadBytes : body_ReadBytes = Hive.Spec.DeserFacts.body_ReadBytes := rfl
+
+theorem C02_facts_body_ReadBytesWithSize : body_ReadBytesWithSize = Hive.Spec.DeserFacts.body_ReadBytesWithSize := rfl
+
+theorem C02_facts_body_ReadObject : body_ReadObject = Hive.Spec.DeserFacts.body_ReadObject := rfl
+
+theorem C02_facts_body_ReadObjectWithSize : body_ReadObjectWithSize = Hive.Spec.DeserFacts.body_ReadObjectWithSize := rfl
+
+theorem C02_facts_body_PeekSize : body_PeekSize = Hive.Spec.DeserFacts.body_PeekSize := rfl
+
+theorem C02_facts_body_ReadCollection : body_ReadCollection = Hive.Spec.DeserFacts.body_ReadCollection := rfl
+
+theorem C02_facts_body_readFixedSize : body_readFixedSize = Hive.Spec.DeserFacts.body_readFixedSize := rfl
+
+theorem C02_facts_body_ByteReader_BytesRead : body_ByteReader_BytesRead = Hive.Spec.DeserFacts.body_ByteReader_BytesRead := rfl
+
+theorem C02_facts_body_Uint64FromBytes : body_Uint64FromBytes = Hive.Spec.DeserFacts.body_Uint64FromBytes := rfl
+
+theorem C02_facts_body_ByteArray32FromBytes : body_ByteArray32FromBytes = Hive.Spec.DeserFacts.body_ByteArray32FromBytes := rfl
+
+theorem C02_facts_body_Deserializer_readSliceLength : body_Deserializer_readSliceLength = Hive.Spec.DeserFacts.body_Deserializer_readSliceLength := rfl
+
+theorem C02_facts_body_Deserializer_ReadVariableByteSlice : body_Deserializer_ReadVariableByteSlice = Hive.Spec.DeserFacts.body_Deserializer_ReadVariableByteSlice := rfl
+
+theorem C02_facts_body_Deserializer_ReadString : body_Deserializer_ReadString = Hive.Spec.DeserFacts.body_Deserializer_ReadString := rfl
+
+theorem C02_facts_body_Deserializer_ReadBytes : body_Deserializer_ReadBytes = Hive.Spec.DeserFacts.body_Deserializer_ReadBytes := rfl
+
+theorem C02_facts_body_Deserializer_ReadPayloadLength : body_Deserializer_ReadPayloadLength = Hive.Spec.DeserFacts.body_Deserializer_ReadPayloadLength := rfl
+
+theorem C02_facts_body_Deserializer_GetObjectType : body_Deserializer_GetObjectType = Hive.Spec.DeserFacts.body_Deserializer_GetObjectType := rfl
+
+theorem C02_facts_body_Deserializer_ReadSequenceOfObjects : body_Deserializer_ReadSequenceOfObjects = Hive.Spec.DeserFacts.body_Deserializer_ReadSequenceOfObjects := rfl
+
+theorem C02_facts_body_Deserializer_RemainingBytes : body_Deserializer_RemainingBytes = Hive.Spec.DeserFacts.body_Deserializer_RemainingBytes := rfl
+
+theorem C02_facts_body_Deserializer_Done : body_Deserializer_Done = Hive.Spec.DeserFacts.body_Deserializer_Done := rfl
+
+theorem C02_facts_body_Deserializer_Skip : body_Deserializer_Skip = Hive.Spec.DeserFacts.body_Deserializer_Skip := rfl
+
+theorem C02_facts_body_Deserializer_ReadTime : body_Deserializer_ReadTime = Hive.Spec.DeserFacts.body_Deserializer_ReadTime := rfl
+
+theorem C02_facts_body_Deserializer_ReadPayload : body_Deserializer_ReadPayload = Hive.Spec.DeserFacts.body_Deserializer_ReadPayload := rfl
+
+end Facts
 
 /-! ## the property, as far as these decoders go -/
 
